@@ -1,15 +1,15 @@
 SPECIFICATION Spec
 CONSTANTS
-  Keys = {"a", "b"}
+  Keys = {"a", "ab"}
   Scalars <- cScalars
   Conts <- cConts
   MaxList = 2
   MaxNodes = 5
   PairNodes = 0
-  SearchKeys = {"a", "b", "*", "z"}
-  CondKeys = {"a", "b"}
+  SearchKeys = {"a", "ab", "*", "z"}
+  CondKeys = {"a", "ab"}
   MaxConds = 2
-  PathNames = {"a", "b", "*"}
+  PathNames = {"a", "ab", "*"}
   MaxPath = 2
   DoEmit = TRUE
 INVARIANTS ThmKeySearch ThmFilter ThmShortest Emit
